@@ -54,10 +54,10 @@ func (b *backoff) duration() time.Duration {
 			ms = ms + int64(deviation)
 		}
 	}
-	if ms <= 0 {
+	if ms <= 0 || ms > int64(b.max) {
 		return b.max
 	}
-	return time.Duration(math.Min(float64(ms), float64(b.max)))
+	return time.Duration(ms)
 }
 
 func (b *backoff) reset() {
